@@ -851,10 +851,18 @@ func checkPatcherDiscipline(e *Env, p *load.Program) {
 			}
 			nMut++
 			good := false
+			isCur := func(o *origin.O) bool {
+				return o != nil && o.Kind == origin.KElem && strings.HasSuffix(o.Args[0].String(), ".jumps") && (o.Args[1].Val == curIdx || affineOf(o.Args[1].Val, loopPhi, isLenJumps, 0) == affineOf(curIdx, loopPhi, isLenJumps, 0))
+			}
 			for _, a := range call.Call.Args {
 				if isNamed(a.Type(), load.PkgRoot, "JumpIf") {
-					o := res.Of(a, nil, call)
-					good = o.Kind == origin.KElem && strings.HasSuffix(o.Args[0].String(), ".jumps") && (o.Args[1].Val == curIdx || affineOf(o.Args[1].Val, loopPhi, isLenJumps, 0) == affineOf(curIdx, loopPhi, isLenJumps, 0))
+					good = isCur(res.Of(a, nil, call))
+				}
+				// or just the position of the current record (`jump.index`)
+				if isNamed(a.Type(), load.PkgRoot, "Index") {
+					if o := res.Of(a, nil, call); o.Kind == origin.KField && o.Field.Name() == "index" && isCur(o.Args[0]) {
+						good = true
+					}
 				}
 			}
 			r.Check(good, "E2.order", "Program.Assemble/mutator-gets-current-jump/"+calleeName(call), p.Pos(call.Pos()), "the layout mutator works on the loop's current jump", "a layout mutator is called with something other than the loop's current jump record")
